@@ -844,7 +844,7 @@ def rule_regex_builder(run, F, cfg):
     for b, t in cr.calls(r"^regex::bytes::RegexBuilder::new$"):
         c = dominating_conditions(cr, b, render=cr.vexpr_operand)
         lone.append((cr.loc(b), any(re.match(r"^\(std::vec::Vec::len\(\$\w+\) Eq 1\)$", k) and v == 1 for k, v in c.items())))
-    sets = [cr.vexpr_operand(t["args"][0]) for b, t in cr.calls(r"^regex::bytes::RegexSetBuilder::new$")]
+    sets = [g.vexpr_operand(t["args"][0]) for g in [cr] + F.closures_of(cr.name) for b, t in g.calls(r"^regex::bytes::RegexSetBuilder::new$")]
     run.ob("C02.3.regex-translation", "one-regex-only-for-one-pattern", bool(lone) and all(o for _, o in lone) and len(sets) >= 1,
            f"compile_regex builds a single regex only under `patterns.len() == 1` ({lone}); otherwise a RegexSet over {sets}",
            site=lone[0][0] if lone else cr.loc(0), config=cfg,
